@@ -114,7 +114,7 @@ func (r *Result) Failed() bool {
 		(!opts.IgnoreDropped && r.snapshot.DroppedIterationCount > 0) ||
 		(opts.MaxFailures == 0 && opts.MaxFailuresRate == 0 && r.snapshot.FailedIterationDurations.Count > 0) ||
 		(opts.MaxFailures > 0 && r.snapshot.FailedIterationDurations.Count > opts.MaxFailures) ||
-		(opts.MaxFailuresRate > 0 && (r.snapshot.FailedIterationsRate() > uint64(opts.MaxFailuresRate)))
+		(opts.MaxFailuresRate > 0 && r.snapshot.FailedIterationsRateExceeds(uint64(opts.MaxFailuresRate)))
 }
 
 func (r *Result) Progress() *views.ViewContext[views.ProgressData] {
